@@ -140,9 +140,11 @@ impl RevocationBitmap {
 
   /// Deserializes [`RevocationBitmap`] from a slice of bytes.
   fn deserialize_slice(data: &[u8]) -> Result<Self, RevocationError> {
+    // The deserializer accepts containers without any element (e.g. a run container with zero runs), which make the
+    // serializer underflow when the bitmap is written back. Rebuilding the bitmap from its elements drops them.
     RoaringBitmap::deserialize_from(data)
       .map_err(RevocationError::BitmapDecodingError)
-      .map(Self)
+      .map(|bitmap| Self(bitmap.iter().collect()))
   }
 
   /// Serializes a [`RevocationBitmap`] as a vector of bytes.
